@@ -106,3 +106,22 @@ func (scheduler *LatchesScheduler) VerifLatches() *Latches { return scheduler.la
 
 // VerifPending is the number of unlock requests not yet taken by the scheduler goroutine.
 func (scheduler *LatchesScheduler) VerifPending() int { return len(scheduler.unlockCh) }
+
+// VerifNewScheduler is NewScheduler, except that a panic of the scheduler
+// goroutine (which would end the whole process) is handed to onPanic instead.
+func VerifNewScheduler(size uint, onPanic func(v any)) *LatchesScheduler {
+	scheduler := &LatchesScheduler{
+		latches:  NewLatches(size),
+		unlockCh: make(chan *Lock, lockChanSize),
+		closed:   false,
+	}
+	go func() {
+		defer func() {
+			if r := recover(); r != nil {
+				onPanic(r)
+			}
+		}()
+		scheduler.run()
+	}()
+	return scheduler
+}
